@@ -213,6 +213,7 @@ def explore(ctx):
         for tr in transformations(name, ctx.quick):
             cases.append({"base": name, "tr": tr})
     res = ctx.run(MOD, "run_case", cases, part="re-presentations", chunksize=4)
+    ctx.run_under(MOD, "run_case", cases[:2] + cases[-1:], ("-O",))
     ctx.notes["worst_relative_change"] = max([r.get("worst", 0.0) for r in res if r.get("worst") is not None and r.get("worst") != float("inf")] or [0.0])
     ctx.exhaustive = not ctx.quick
 
